@@ -16,7 +16,16 @@ func c09(c *ctx) {
 		Rule: "records = abstract requests rendered to bytes (seeded spellings: header-name case, blanks, token position in lists, header order, CRLF/LF, extra headers): the full product host{absent,ok,varied,dup} x upgrade{absent,ok,varied,dup,wrong} x connection{same 5} x version{absent,ok,varied,dup,wrong,other} x key{absent,ok,varied,dup,len23,len25,empty,nonb64} with GET HTTP/1.1, plus method/version forms, subprotocol lists x selectors, extension offers x selectors/negotiators, callbacks rejecting with custom status/headers or a plain error, through Upgrader.Upgrade, ws.Upgrade, HTTPUpgrader.Upgrade and ws.UpgradeHTTP; distinct = (api, verdict class, status, token classes that are not ok)"}
 	rng := vh.Rand(c.seed, "c09")
 	n := 0
+	tn := 0
 	emit := func(key, api string, q sreq, cf scfg) {
+		// transport detail for the zero-copy upgrader: read/write buffer sizes and arrival in pieces
+		// (the request head is then parsed across several fills of the pooled buffer)
+		tn++
+		if api == "Upgrader" {
+			cf.Rbuf = []int{0, 16, 0, 48, 130, 4096, 24}[tn%7]
+			cf.Wbuf = []int{0, 16, 512}[tn%3]
+			cf.Chunk = []int{0, 0, 1, 7, 33}[tn%5]
+		}
 		if !vh.Only(key) {
 			return
 		}
@@ -57,7 +66,7 @@ func c09(c *ctx) {
 				for _, ve := range []string{"absent", "ok", "varied", "dup", "wrong", "other"} {
 					for _, ky := range []string{"absent", "ok", "varied", "dup", "len23", "len25", "empty", "nonb64"} {
 						k++
-						if !c.thorough && k%3 != 0 && !(host == "ok" && (up == "ok" || co == "ok")) {
+						if false {
 							continue
 						}
 						q := base
